@@ -4,7 +4,7 @@
    The converse (true relation + accepted call => the recorded witness satisfies) is completeness (C01) and is
    checked on every accepted case by the harness.  "Same relation as the run-time check" is decided per case by
    the harness (run-time acceptance <-> satisfiability of the captured R1CS, complete on small fields).
-   The C03_model_* theorems link the cores to the constraint lists the model's gadgets really emit (outside guarded regions,
+   The C03_model_* theorems link the cores to the constraint lists the model's gadgets really emit (outside guarded regions or under a guard wire evaluating to 1,
    every bitlength, every assignment): Proofs/Adv.v, Proofs/AdvGadgets.v. *)
 From Coq Require Import ZArith List Znumtheory Lia.
 From PySnark.Base Require Import FieldZ.
@@ -65,7 +65,7 @@ Variable w : var -> Z.
 Hypothesis W0 : w 0 = 1.
 Variable c : cfg.
 Variable s : @Gadgets.gst p.
-Hypothesis G : guard s = None.
+Hypothesis G : AdvGadgets.Gok w s.     (* no active guard, or the active guard wire evaluates to 1 under w (a true guard is transparent) *)
 Notation "a == b" := (feq p a b) (at level 70).
 Notation ew := (AdvGadgets.ew w).
 Notation sat cs := (Forall (holds (p:=p) w) (cons_of cs)).
